@@ -326,9 +326,10 @@ func c08ExtDoc(e c08Ext, variant bool) J {
 	schemas := J{}
 	if e.Enum {
 		schemas["Color"] = b
-		schemas["Thing"] = J{"type": "object", "required": []interface{}{"a"}, "properties": J{"a": a, "b": J{"type": "integer"}}}
+		schemas["Thing"] = J{"type": "object", "required": []interface{}{"a"}, "properties": J{"a": a, "b": J{"type": "integer"}, "c": J{"type": "boolean"}}}
 	} else {
-		schemas["Thing"] = J{"type": "object", "required": []interface{}{"a"}, "properties": J{"a": a, "b": b}}
+		// a member before and a member after the one that carries the extension
+		schemas["Thing"] = J{"type": "object", "required": []interface{}{"a"}, "properties": J{"a": a, "b": b, "c": J{"type": "boolean"}}}
 	}
 	return wDoc(J{}, J{"schemas": schemas})
 }
@@ -405,20 +406,22 @@ func c08ExtMask(e c08Ext) (int, string, error) {
 	set(11, fb.Doc != fv.Doc, fmt.Sprintf("doc %q->%q", fb.Doc, fv.Doc))
 	// the other member must be untouched
 	if len(vb.Fields["Thing"]) > 0 && len(vv.Fields["Thing"]) > 0 {
-		var ab, av fieldView
-		for _, f := range vb.Fields["Thing"] {
-			if f.TagName == "a" {
-				ab = f
+		for _, other := range []string{"a", "c"} {
+			var ab, av fieldView
+			for _, f := range vb.Fields["Thing"] {
+				if f.TagName == other {
+					ab = f
+				}
 			}
-		}
-		for _, f := range vv.Fields["Thing"] {
-			if f.TagName == "a" {
-				av = f
+			for _, f := range vv.Fields["Thing"] {
+				if f.TagName == other {
+					av = f
+				}
 			}
-		}
-		if ab != av {
-			mask |= 1 << 12
-			why = append(why, "the other member changed")
+			if ab != av {
+				mask |= 1 << 12
+				why = append(why, fmt.Sprintf("the other member %s changed: %+v -> %+v", other, ab, av))
+			}
 		}
 	}
 	return mask, strings.Join(why, "; "), nil
@@ -676,6 +679,24 @@ func runC08(ctx *Ctx) error {
 		if !okc {
 			ctx.Res.Violate(fmt.Sprintf("field:req=%v:null=%v:ro=%v:wo=%v:skip=%d:xomit=%d:ignore=%v:nt=%v:rof=%v", r.Required, r.Nullable, r.ReadOnly, r.WriteOnly, r.SkipPtr, r.XOmit, r.JSONIgnore, r.NullableType, r.ROFlag),
 				fmt.Sprintf("member rendered as %q; documented pointer=%v nullable-wrapper=%v omitempty=%v", r.Line, c08DocPointer(r), r.NullableType && r.Nullable, c08DocOmit(r)), J{"cell": r})
+		}
+	}
+	// x-go-type-import: one package path may be imported under several names; every name a type uses is imported
+	{
+		imp := func(name string) J { return J{"path": "example.com/shared/types", "name": name} }
+		doc := wDoc(J{}, J{"schemas": J{"A": J{"type": "object", "properties": J{
+			"x": J{"type": "string", "x-go-type": "types.X", "x-go-type-import": imp("types")},
+			"y": J{"type": "string", "x-go-type": "shared.Y", "x-go-type-import": imp("shared")}}},
+			"B": J{"type": "string", "x-go-type": "tt.Z", "x-go-type-import": imp("tt")}}})
+		ctx.Res.Eval(J{"imports": "one-path-several-names"}, true)
+		if v, err := c08View(doc); err != nil {
+			ctx.Res.Violate("imports:one-path-several-names:generate", "a document whose types import one package under three names is not generated: "+err.Error(), J{"doc": doc})
+		} else {
+			for _, want := range []string{`types "example.com/shared/types"`, `shared "example.com/shared/types"`, `tt "example.com/shared/types"`} {
+				if !contains(v.Imports, want) {
+					ctx.Res.Violate("imports:one-path-several-names:missing", fmt.Sprintf("x-go-type-import %s is used by a type but not imported (imports: %v)", want, v.Imports), J{"doc": doc})
+				}
+			}
 		}
 	}
 	for i, e := range c08Exts() {
